@@ -115,15 +115,43 @@ def nLatin1 : PStr := [108, 97, 116, 105, 110, 45, 49]                          
 def nCp1252 : PStr := [99, 112, 49, 50, 53, 50]                                      -- "cp1252"
 def nAscii : PStr := [97, 115, 99, 105, 105]                                         -- "ascii"
 
+def nUtf16be : PStr := [117, 116, 102, 45, 49, 54, 98, 101]                          -- "utf-16be"
+def nUtf16le : PStr := [117, 116, 102, 45, 49, 54, 108, 101]                         -- "utf-16le"
+def nUtf32be : PStr := [117, 116, 102, 45, 51, 50, 98, 101]                          -- "utf-32be"
+def nUtf32le : PStr := [117, 116, 102, 45, 51, 50, 108, 101]                         -- "utf-32le"
+
+/-- What CPython's codec registry says about a spelling (generated for a finite universe of spellings;
+    `unlisted` = the generated table has no row for it: the model does not know). -/
+inductive CodecInfo
+  | table (t : List (Option Nat))   -- a single-byte codec the model knows byte by byte
+  | utf8
+  | other                            -- some other codec (UTF-16, Shift-JIS, …): exists, not modelled
+  | notACodec                        -- `codecs.lookup` raises LookupError
+  | unlisted
+
+def codecInfo (name : PStr) : CodecInfo :=
+  match Gen.Detwingle.codecNames.lookup name with
+  | none => .unlisted
+  | some 0 => .notACodec
+  | some 1 => .utf8
+  | some 2 => .other
+  | some (i + 3) =>
+    match Gen.Detwingle.codecTables[i]? with
+    | some t => .table t
+    | none => .unlisted
+
 /-- A codec as the model sees it: a 256-entry single-byte table (from CPython), or UTF-8. -/
 inductive Codec
   | table (t : List (Option Nat))
   | utf8
+  deriving DecidableEq
 
-/-- Codec of a (lower-case, canonical) name; `none` = a name the model does not cover. -/
+/-- Codec of a spelling CPython accepts; `none` = not a codec, or one the model does not decode. -/
 def codecOf (name : PStr) : Option Codec :=
-  if name = nUtf8 then some .utf8
-  else (Gen.Detwingle.codecs.lookup name).map .table
+  match codecInfo name with
+  | .table t => some (.table t)
+  | .utf8 => some .utf8
+  | _ => none
 
 def tableByte (t : List (Option Nat)) (b : Nat) : Option Nat := (t[b]?).join
 
@@ -141,8 +169,7 @@ def decodeStrict : Codec → Bytes → Option PStr
   | .utf8, bs => decodeUtf8 bs
 
 /-- `str(data, encoding, "replace")` for a single-byte table codec (each undefined byte → U+FFFD).
-    UTF-8 with `replace` is outside the model (`none` here means "not modelled"; it is never reached
-    when the first candidate is a single-byte codec, because that one cannot fail). -/
+    UTF-8 with `replace` is outside the model (see `attempt`). -/
 def decodeReplace : Codec → Bytes → Option PStr
   | .table t, bs => some (bs.map fun b => (tableByte t b).getD 0xFFFD)
   | .utf8, _ => none
@@ -162,44 +189,153 @@ def convertWith (t : MsTables) (name : PStr) (mode : Mode) (replace : Bool) (mar
 def convertFrom (name : PStr) (mode : Mode) (markup : Bytes) : Option PStr :=
   convertWith liveTables name mode false markup
 
-/-- `EncodingDetector.encodings` (dammit.py:594-643) when there is no BOM, no declaration and no
-    chardet: the known encodings, then `utf-8`, `windows-1252`, without repeats (`_usable`). -/
-def candidates (known : List PStr) : List PStr :=
-  (known ++ [nUtf8, nWindows1252]).foldl (fun acc e => if acc.contains e then acc else acc ++ [e]) []
+/-! ### The whole constructor: BOM, candidate order, `find_codec`, `tried_encodings`, two passes -/
 
-/-- First pass of `UnicodeDammit.__init__` (dammit.py:807-811): first candidate that converts. -/
-def firstPass (t : MsTables) (mode : Mode) (markup : Bytes) : List PStr → Option PStr
-  | [] => none
-  | e :: es =>
-    match convertWith t e mode false markup with
-    | some u => some u
-    | none => firstPass t mode markup es
+/-- `str.lower()` on ASCII names. -/
+def asciiLower (s : PStr) : PStr := s.map fun c => if 65 ≤ c && c ≤ 90 then c + 32 else c
 
-/-- Second pass (dammit.py:813-828): the same candidates with `errors="replace"`, `ascii` skipped. -/
-def secondPass (t : MsTables) (mode : Mode) (markup : Bytes) : List PStr → Option PStr
-  | [] => none
-  | e :: es =>
-    if e = nAscii then secondPass t mode markup es
-    else match convertWith t e mode true markup with
-      | some u => some u
-      | none => secondPass t mode markup es
+/-- `EncodingDetector.strip_byte_order_mark` (dammit.py:646-676). -/
+def stripBom (data : Bytes) : Bytes × Option PStr :=
+  if data.take 2 = [0xFE, 0xFF] ∧ (data.drop 2).take 2 ≠ [0, 0] then (data.drop 2, some nUtf16be)        -- :659
+  else if data.take 2 = [0xFF, 0xFE] ∧ (data.drop 2).take 2 ≠ [0, 0] then (data.drop 2, some nUtf16le)   -- :662
+  else if data.take 3 = [0xEF, 0xBB, 0xBF] then (data.drop 3, some nUtf8)                                 -- :665
+  else if data.take 4 = [0, 0, 0xFE, 0xFF] then (data.drop 4, some nUtf32be)                              -- :668
+  else if data.take 4 = [0xFF, 0xFE, 0, 0] then (data.drop 4, some nUtf32le)                              -- :671
+  else (data, none)
 
-/-- `UnicodeDammit(markup, known, smart_quotes_to=mode)`: `(unicode_markup, contains_replacement_characters)`
-    for non-empty `markup` without BOM/declaration; `none` = `unicode_markup is None`. -/
-def unicodeMarkupWith (t : MsTables) (known : List PStr) (mode : Mode) (markup : Bytes) : Option PStr × Bool :=
-  let cs := candidates known
-  match firstPass t mode markup cs with
-  | some u => if u.isEmpty then                                   -- :813 `if not u`
-                match secondPass t mode markup cs with
-                | some v => (some v, true)
-                | none => (some u, false)
-              else (some u, false)
-  | none =>
-    match secondPass t mode markup cs with
-    | some v => (some v, true)
-    | none => (none, false)
+/-- `EncodingDetector.encodings` (dammit.py:594-643) with `_usable` (dammit.py:574-589): the known
+    encodings, the BOM's encoding, the declared encoding, then `utf-8`, `windows-1252`; a name is dropped
+    when its lower-cased form was already yielded.  (`user_encodings`, `exclude_encodings` empty, no
+    chardet.)  `declared` is what `find_declared_encoding` returns — a parameter here; the theorems hold
+    for every value of it. -/
+def detectorEncodings (known : List PStr) (sniffed declared : Option PStr) : List PStr :=
+  ((known ++ sniffed.toList ++ declared.toList ++ [nUtf8, nWindows1252]).foldl
+    (fun (acc : List PStr × List PStr) e =>
+      if acc.2.contains (asciiLower e) then acc else (acc.1 ++ [e], acc.2 ++ [asciiLower e])) ([], [])).1
 
-def unicodeMarkup : List PStr → Mode → Bytes → Option PStr × Bool := unicodeMarkupWith liveTables
+def replaceDash (r : PStr) (s : PStr) : PStr := s.flatMap fun c => if c = 45 then r else [c]
+
+/-- `codecs.lookup(name)` succeeds. -/
+def codecKnown (name : PStr) : Bool :=
+  match codecInfo name with
+  | .notACodec | .unlisted => false
+  | _ => true
+
+/-- `UnicodeDammit._codec` (dammit.py:1005-1014); `none` also stands for the falsy `""`. -/
+def pyCodec (charset : PStr) : Option PStr :=
+  if charset = [] then none else if codecKnown charset then some charset else none
+
+/-- `UnicodeDammit.find_codec` (dammit.py:988-1003). -/
+def findCodec (charset : PStr) : Option PStr :=
+  let value :=
+    (pyCodec ((Gen.Detwingle.charsetAliases.lookup charset).getD charset)).orElse fun _ =>       -- :995
+    (if charset = [] then none else pyCodec (replaceDash [] charset)).orElse fun _ =>              -- :996
+    (if charset = [] then none else pyCodec (replaceDash [95] charset)).orElse fun _ =>            -- :997
+    (if charset = [] then none else some (asciiLower charset))                                     -- :998
+  value.map asciiLower                                                                             -- :1001-1002
+
+/-- Every spelling `find_codec` and the decoder consult for `charset` has a row in the generated table
+    (otherwise the model's answer for that name is a guess and the harness does not compare). -/
+def namesListed (charset : PStr) : Bool :=
+  let listed := fun n => n = [] || (Gen.Detwingle.codecNames.lookup n).isSome
+  listed ((Gen.Detwingle.charsetAliases.lookup charset).getD charset) && listed (replaceDash [] charset) &&
+  listed (replaceDash [95] charset) && listed (asciiLower charset) &&
+  (match findCodec charset with | some r => listed r | none => true)
+
+/-- Result of one `_convert_from` call. -/
+inductive Att
+  | ok (u : PStr)
+  | fail            -- returned None
+  | beyond          -- a codec the model does not decode (UTF-16/32, multi-byte codecs, UTF-8 with "replace")
+  deriving DecidableEq, Repr
+
+/-- `_convert_from` after the `tried_encodings` bookkeeping (dammit.py:937-959) for the looked-up name `r`. -/
+def attempt (t : MsTables) (r : PStr) (mode : Mode) (replace : Bool) (data : Bytes) : Att :=
+  if data = [] then .ok [] else      -- CPython: `str(b"", anything, …)` is `""` without looking the codec up (BOM-only input)
+  match codecInfo r with
+  | .notACodec => .fail                                   -- `str(data, r, …)` raises LookupError, caught :954
+  | .other | .unlisted => .beyond
+  | .utf8 => if replace then .beyond else
+      match convertWith t r mode false data with | some u => .ok u | none => .fail
+  | .table _ => match convertWith t r mode replace data with | some u => .ok u | none => .fail
+
+abbrev Tried := List (PStr × Bool)
+
+/-- `_convert_from(proposed, errors)` (dammit.py:922-959) on the state `tried_encodings`. -/
+def convertFromSt (t : MsTables) (mode : Mode) (data : Bytes) (tried : Tried) (proposed : PStr) (replace : Bool) :
+    Tried × Option PStr × Att :=
+  match findCodec proposed with                                            -- :932
+  | none => (tried, none, .fail)                                           -- :933-934
+  | some r =>
+    if tried.contains (r, replace) then (tried, none, .fail)               -- :933-934
+    else (tried ++ [(r, replace)], some r, attempt t r mode replace data)  -- :936 ff.
+
+/-- Outcome of the constructor. -/
+inductive Outcome
+  | ok (unicodeMarkup : PStr) (containsReplacement : Bool) (originalEncoding : Option PStr)
+  | failed           -- unicode_markup is None
+  | beyond           -- decided by a codec the model does not decode
+  deriving DecidableEq, Repr
+
+/-- First loop of `UnicodeDammit.__init__` (dammit.py:802-807). -/
+def pass1 (t : MsTables) (mode : Mode) (data : Bytes) : List PStr → Tried → Tried × Option Outcome
+  | [], tried => (tried, none)
+  | e :: es, tried =>
+    match convertFromSt t mode data tried e false with
+    | (tried, r, .ok u) => (tried, some (.ok u false r))
+    | (tried, _, .beyond) => (tried, some .beyond)
+    | (tried, _, .fail) => pass1 t mode data es tried
+
+/-- Second loop (dammit.py:809-825): `errors="replace"`, the literal name `"ascii"` skipped. -/
+def pass2 (t : MsTables) (mode : Mode) (data : Bytes) : List PStr → Tried → Tried × Option Outcome
+  | [], tried => (tried, none)
+  | e :: es, tried =>
+    if e = nAscii then pass2 t mode data es tried                                       -- :814
+    else match convertFromSt t mode data tried e true with
+      | (tried, r, .ok u) => (tried, some (.ok u true r))
+      | (tried, _, .beyond) => (tried, some .beyond)
+      | (tried, _, .fail) => pass2 t mode data es tried
+
+/-- `UnicodeDammit(markup, known, smart_quotes_to=mode)` (dammit.py:766-838) for `bytes` markup:
+    `unicode_markup`, `contains_replacement_characters`, `original_encoding`. -/
+def unicodeDammitWith (t : MsTables) (known : List PStr) (declared : Option PStr) (mode : Mode) (markup : Bytes) : Outcome :=
+  if markup = [] then .ok [] false none                                    -- :792-796
+  else
+    let (data, sniffed) := stripBom markup                                 -- :800 (detector.markup)
+    let cs := detectorEncodings known sniffed declared
+    match pass1 t mode data cs [] with
+    | (_, some o) => o
+    | (tried, none) =>
+      match pass2 t mode data cs tried with                                -- :809 `if u is None`
+      | (_, some o) => o
+      | (_, none) => .failed                                               -- :833-835
+
+def unicodeDammit : List PStr → Option PStr → Mode → Bytes → Outcome := unicodeDammitWith liveTables
+
+/-- One constructor call: `UnicodeDammit(markup, known, smart_quotes_to=mode)` on a document whose
+    declaration (if any) names `declared`. -/
+structure DammitCall where
+  known : List PStr
+  declared : Option PStr
+  mode : Mode
+  markup : Bytes
+
+def runCall (c : DammitCall) : Outcome := unicodeDammit c.known c.declared c.mode c.markup
+
+/-- State a sequence of calls in one process could share.  In bs4 4.13 there is none: `find_codec`,
+    `_convert_from` and `detwingle` read class constants only and `tried_encodings` lives on the object. -/
+structure ProcState where
+  deriving DecidableEq
+
+/-- one call in a process: new object (fresh `tried_encodings`), result, unchanged class state -/
+def stepCall (st : ProcState) (c : DammitCall) : ProcState × Outcome := (st, runCall c)
+
+/-- A history of calls in one process, threading the process state. -/
+def runCallsFrom : ProcState → List DammitCall → List Outcome
+  | _, [] => []
+  | st, c :: cs => let (st', o) := stepCall st c; o :: runCallsFrom st' cs
+
+def runCalls (cs : List DammitCall) : List Outcome := runCallsFrom {} cs
 
 /-! ### Reference un-escaper (specification side) -/
 
@@ -231,6 +367,24 @@ def unescapeRef (s : PStr) : Option Nat :=
         | _ => none
     | _ => none
   | _ => none
+
+/-- Un-escape every `&…;` reference in a string: a state machine whose `pending` holds the text since an
+    open `&`; a `;` closes it (replaced by what `unescapeRef` says, kept literally if that is no reference),
+    another `&` or the end of the string flushes it literally.  On the strings the smart-quote conversion
+    produces from `&`-free input this is what `html.unescape` does (compared by the harness). -/
+def unescapeGo : Option PStr → PStr → PStr
+  | none, [] => []
+  | some buf, [] => buf
+  | none, c :: rest => if c = 38 then unescapeGo (some [38]) rest else c :: unescapeGo none rest
+  | some buf, c :: rest =>
+    if c = 59 then
+      match unescapeRef (buf ++ [59]) with
+      | some x => x :: unescapeGo none rest
+      | none => buf ++ 59 :: unescapeGo none rest
+    else if c = 38 then buf ++ unescapeGo (some [38]) rest
+    else unescapeGo (some (buf ++ [c])) rest
+
+def unescapeAll (s : PStr) : PStr := unescapeGo none s
 
 /-! ## detwingle -/
 
@@ -313,8 +467,6 @@ inductive DetwingleResult
   | notImplemented        -- NotImplementedError (dammit.py:1359-1372)
   | hangs
   deriving DecidableEq, Repr
-
-def asciiLower (s : PStr) : PStr := s.map fun c => if 65 ≤ c && c ≤ 90 then c + 32 else c
 
 /-- The argument checks of `detwingle` (dammit.py:1359-1372), ASCII encoding names. -/
 def detwingleCall (inb : Bytes) (mainEnc embEnc : PStr) : DetwingleResult :=
